@@ -37,7 +37,8 @@ LEVEL_TEXT = ("Lean 4 theorems over the staging model: for an async snapshot eve
               "object) owns its bytes, so for EVERY later application memory the bytes written equal the serialisation at staging "
               "time; a sync take writes the same bytes; a proved witness shows the pre-fix copy predicate aliased. Tied to the real "
               "stagers by observing aliasing directly, and to the real async_take by mutating the whole state at every background-"
-              "write position and comparing the restored snapshot and the manifest with a synchronous take.")
+              "write position and comparing the restored snapshot and the manifest with a synchronous take."
+              ' For histories (C09_history_mutation_invisible): any interleaving of several pending async snapshots, in-place mutations and background writes stores, for each snapshot, the state at its own call.')
 LEVEL_NOTE = ("Trusted: Lean kernel, hand model TsModel/Stage.lean (CPU paths only), harness gate (orders storage writes of the real "
               "background thread). That all requests are staged before async_take returns is the pipeline model's exit condition (C10/C11).")
 TECHNIQUE = "Lean 4 proof over staging/aliasing model + real async_take with gated background I/O and mutation at every write position"
